@@ -1611,6 +1611,13 @@ class Run:
                 self.vars.pop(v['id'], None)
                 return
             raise Unsupported('local %s of type %s' % (v['n'], tv.get('s')))
+        if tv.get('ref') and T(self.f, tv.get('to')).get('rec') and v.get('init') is not None:
+            # a reference local bound to a modelled record (`Data& h = d();`)
+            rv = self.val(v['init'])
+            if isinstance(rv, tuple) and rv[0] == 'R' and rv[1] in self.recs:
+                self.vars[v['id']] = rv
+                return
+            raise Unsupported('local %s of type %s' % (v['n'], tv.get('s')))
         if not (tv.get('int') or tv.get('ptr') or tv.get('flt')):
             raise Unsupported('local %s of type %s' % (v['n'], tv.get('s')))
         self.boxed.pop(v['id'], None)
